@@ -587,7 +587,12 @@ class Tr:
         raise Unsupported(f'call {ast.unparse(f)}')
 
     # --------------------------------------------------------------------------------------------- statements
-    def assign_name(self, name, code, kind, ind, out):
+    def assign_name(self, name, code, kind, ind, out, fresh=False):
+        # aliasing: Lean values are immutable, python lists are not.  An in-place change `x[i] op= v` is translated as a
+        # re-binding of x, which is only faithful when x is a list of its own (a literal, a `.copy()`), never an element of an
+        # operand's term list
+        self.fresh_vars = getattr(self, 'fresh_vars', set())
+        (self.fresh_vars.add if fresh else self.fresh_vars.discard)(name)
         declared = self.kinds.get(name)
         if declared is None:
             raise Unsupported(f'local {name} has no declared kind')
@@ -667,8 +672,9 @@ class Tr:
                     tname = self.fresh('t')
                     out.append(f'{ind}let {tname} : {KT[k]} := {c}')
                     c = tname
+                is_fresh = isinstance(st.value, ast.List) or (isinstance(st.value, ast.Call) and isinstance(st.value.func, ast.Attribute) and st.value.func.attr == 'copy')
                 for tg in st.targets:
-                    self.assign_name(tg.id, c, k, ind, out)
+                    self.assign_name(tg.id, c, k, ind, out, fresh=is_fresh and len(st.targets) == 1)
                 return False
             if len(st.targets) == 1 and isinstance(st.targets[0], ast.Subscript) and isinstance(st.targets[0].value, ast.Name):
                 nm = st.targets[0].value.id
@@ -698,6 +704,8 @@ class Tr:
                 f = {'Add': 'add', 'Mult': 'mul'}.get(op)
                 if f is None or k not in ('mono', 'omono'):
                     raise Unsupported(f'augmented item assignment on {k}')
+                if nm not in getattr(self, 'fresh_vars', set()):
+                    raise Unsupported(f'in-place change of the list `{nm}`, which may be shared with an operand (it is neither a literal nor a copy)')
                 o = 'o' if k == 'omono' else ''
                 n = self.name(nm)
                 out.append(f'{ind}{n} := (← Py.{o}setItem {n} {i} (← Py.Atom.{f} (← Py.{o}getItem {n} {i}) {v}))')
